@@ -76,6 +76,7 @@ class Engine(ExprMixin, CallMixin):
         self.depth = 0
         self.cur_contract = None
         self.comp_target_class = None
+        self.visited_lines = set()        # line numbers of every statement reached by the symbolic execution
         self.set_class = None             # HeapClass of the result of set(opaque iterable)
         self.paths = 0
         self.dropped = []
@@ -154,6 +155,7 @@ class Engine(ExprMixin, CallMixin):
         return done + [('next', None, s) for s in cur]
 
     def exec_stmt(self, node, st):
+        self.visited_lines.add(node.lineno)
         m = getattr(self, 'st_' + type(node).__name__, None)
         if m is None:
             raise Unsupported('statement %s at line %d' % (type(node).__name__, node.lineno))
